@@ -22,6 +22,9 @@ Check (C11_file_roundtrip : forall (S : schema), wf_schema S = true ->
   load_bytes S t (save_bytes S t v) = Some (reload S t v)).
 Check (C11_bytes_roundtrip : forall ts fuel, forallb tok_ok ts = true -> length ts <= fuel ->
   toks_of_bytes fuel (bytes_of_toks ts) = Some ts).
+Check (C11_derive_writes_slot_array : forall fs encs nils,
+  nodup_nat (idxs fs) = true -> length encs = length fs -> length nils = length fs ->
+  enc_rec fs encs nils = enc_rec_spec fs encs nils).
 Print Assumptions C11_roundtrip_generic.
 Print Assumptions C11_schema_wf.
 Print Assumptions C11_store_roundtrip.
@@ -32,3 +35,4 @@ Print Assumptions C11_file_determines_store.
 Print Assumptions C11_encoding_wellformed.
 Print Assumptions C11_bytes_roundtrip.
 Print Assumptions C11_file_roundtrip.
+Print Assumptions C11_derive_writes_slot_array.
